@@ -353,9 +353,13 @@ void vfps::KickMap::updateSM()
         meshindex_t jd; //numper of lower mesh point from p'
         interpol_t xip; //distance of p' from lower mesh point
         xip = std::modf(poffs, &qp_int);
-        jd = qp_int;
+        // only positions inside the mesh are converted to an index: casting
+        // a negative, too large or NaN float to unsigned is undefined behaviour
+        const bool inside = ( poffs >= 0
+                           && poffs < static_cast<meshaxis_t>(_meshsize_kd));
+        jd = inside ? static_cast<meshindex_t>(qp_int) : 0;
 
-        if (jd < static_cast<meshindex_t>(_meshsize_kd)) {
+        if (inside) {
             // create vectors containing interpolation coefficiants
             calcCoefficiants(smc,xip,_it);
 
